@@ -23,7 +23,7 @@ def run():
              f"0-2 rows of junk after it (or table ending with the sheet); rules: optional (default declared) on "
              f"present and missing columns, external (None rule and (None, None, default)), ranged dict-int / "
              f"dict-str / set-bool (optional, also with no column at all), attribute order independent of column "
-             f"order, class with or without a key attribute; plus three fixed sheets (the 29-column sheet of DESIGN.md Appendix A; a 1-column sheet read with an external first attribute; a B..D table with margins A and E, a margin note next to a gap row and a key attribute). "
+             f"order, class with _NUM_ID_ATTRS 0 (45 %), 1, 2 or 3 (id = leading attributes read from present columns; id cells blank as drawn, so ids are often partly blank; 8 % of the wholly blank ids are left blank); plus four fixed sheets (the 29-column sheet of DESIGN.md Appendix A; a 1-column sheet read with an external first attribute; a B..D table with margins A and E, a margin note next to a gap row and a key attribute; a table read with a two-attribute id whose parts are blank in turn and together). "
              f"Every sheet is read by the real iter_table and checked against the reference model; ladder sheets "
              f"are also re-read plain after filling in. non-trivial = >= 2 data rows and >= 1 optional, external "
              f"or ranged attribute",
@@ -49,8 +49,11 @@ def run():
         "filled; the comparison with the filled-in sheet is over the extent the ladder sheet defines",
         "a ladder value taken from a blank cell may be reported at any blank cell between the holding row and "
         "the object's row",
-        "class with a key attribute (_NUM_ID_ATTRS=1): key read from a present column, blank only in margin-note "
-        "rows (XlsObject.construct documents None for blank keys; an object there is a diagnostic)",
+        "classes with key attributes (_NUM_ID_ATTRS = 1..3): every id part is read from a present column. "
+        "XlsObject.construct documents None only for a wholly blank id: a row with at least one filled id cell "
+        "(after ladder filling) must produce an object whose blank id parts are converted like any blank cell; "
+        "the entry of a row whose whole id is blank is not pinned down (None, an object matching its cells, or "
+        "absent; an object for all-None id cells is a diagnostic)",
         "optional ranged attribute without any column: declared default == empty container of the reader, so "
         "'declared default' and 'conversion of no cells' coincide",
         "ranged group identity is demanded only up to 'one maximal run of unknown titled columns' when several "
